@@ -38,6 +38,7 @@ class Contract(object):
         self.result_fresh = kw.pop('result_fresh', False)
         self.note = kw.pop('note', '')
         self.variant_of = kw.pop('variant_of', None)
+        self.feas_ms = kw.pop('feas_ms', None)          # feasibility-check budget per fork (unknown = feasible)
         self.consts = kw.pop('consts', {})              # parameter -> concrete Python value (specialised variant)
         self.variants = kw.pop('variants', {})          # (param, value) -> qual of the specialised contract
         if kw:
